@@ -1799,6 +1799,11 @@ def call_builtin_type(it: Interp, name, args, kwargs, node=None):
         v = args[0]
         if isinstance(v, (str, int, float, bool, type(None))):
             return str(v)
+        if isinstance(v, ExcVal):
+            if len(v.args) == 1 and isinstance(v.args[0], str):
+                return v.args[0]
+            if not v.args:
+                return ""
         if isinstance(v, AbsVal) and not isinstance(v, Unknown):
             r = v.call_method(it, "__str__", [], {})
             if r is not NotImplemented:
